@@ -35,7 +35,7 @@ Definition obs_eqb (a b : obs) : bool :=
   | OVac x, OVac y => x =? y
   | OReopen x, OReopen y => Bool.eqb x y
   | OSearch x, OSearch y => sres_eqb x y
-  | _, _ => false          (* OVacErr, OPanic, OFuel: the model never produces the first two, the implementation never the third *)
+  | _, _ => false          (* OVacErr, OPanic, OAbort, OFuel: the model never produces the first three, the implementation never the last *)
   end.
 Fixpoint obs_list_eqb (a b : list obs) : bool :=
   match a, b with
@@ -94,7 +94,7 @@ Fixpoint spec_walk (dims : Z) (i : nat) (s : sp) (tr : list (op * obs)) : option
   match tr with
   | [] => None
   | (o, b) :: t =>
-      match b with OPanic => Some i | _ =>
+      match b with OPanic | OAbort => Some i | _ =>
       match o, b with
       | Ins row v _ _, OIns ok =>
           match a_get row (s_live s) with
@@ -166,9 +166,21 @@ Definition sq8_model_agrees (nums : list Z) (sh : Z) (o : sqout) : bool :=
   end.
 
 (* ------------------------------------------------------------------ the contract *)
+(* the model reproduces every observation up to (not including) the call after which more than half of
+   the first node page is in use: from there on the implementation's slot offsets alias (F-C25-3) and
+   the model, which has no bytes, makes no prediction *)
+Fixpoint agree (p : params) (w : world) (tr : list (op * obs)) : bool :=
+  match tr with
+  | [] => true
+  | (o, b) :: t =>
+      let '(w1, b') := step p w o in
+      if HALF_PAGE <? page_use (ix w1) then true
+      else obs_eqb b' b && agree p w1 t
+  end.
+
 Definition model_agrees (c : case) : bool :=
   match c with
-  | Hist d m e tr => obs_list_eqb (snd (run (Pm d m e) w0 (map fst tr))) (map snd tr)
+  | Hist d m e tr => agree (Pm d m e) w0 tr
   | Sq8 nums sh o => sq8_model_agrees nums sh o
   end.
 
@@ -179,13 +191,16 @@ Definition spec_ok (c : case) : bool :=
   end.
 
 (* class of the model state in which the first offending call was made (0 when nothing offends):
-   1 = some node has been deleted (F-C25-1), 2 = the entry point has been deleted (F-C25-2) *)
+   1 = some node has been deleted (F-C25-1), 2 = the entry point has been deleted (F-C25-2),
+   3 = more than half of the first node page is in use (F-C25-3).  For an offending insert the state
+   after the call counts (it is the insert itself that writes over other slots). *)
 Definition known_class (c : case) : Z :=
   match c with
   | Hist d m e tr =>
       match spec_fail_at c with
       | None => 0
-      | Some i => class_of (ix (run0 (Pm d m e) (map fst (firstn i tr))))
+      | Some i => Z.max (class_of (ix (run0 (Pm d m e) (map fst (firstn i tr)))))
+                        (if class_of (ix (run0 (Pm d m e) (map fst (firstn (S i) tr)))) =? 3 then 3 else 0)
       end
   | Sq8 _ _ _ => 0
   end.
